@@ -304,6 +304,9 @@ fn case_json(cs: &Case) -> Value {
 
 struct Vocab {
     shared: bool,
+    /// half of the subjects occur in every stream (used when blocks share two variables, so
+    /// that rows agreeing on one shared variable and disagreeing on the other exist)
+    common: bool,
 }
 impl Vocab {
     fn subj(&self, stream: usize, j: usize) -> String {
@@ -337,7 +340,7 @@ enum Size {
     Normal,
 }
 
-fn gen_block(r: &mut Rng, vo: &Vocab, w: usize, stream: usize, size: Size, join_var: bool, n_pred: usize, n_val: usize, n_subj: usize) -> Vec<TP> {
+fn gen_block(r: &mut Rng, vo: &Vocab, w: usize, stream: usize, size: Size, join_var: bool, join2: bool, n_pred: usize, n_val: usize, n_subj: usize) -> Vec<TP> {
     let x = format!("x{}", w);
     let y = format!("y{}", w);
     let z = format!("z{}", w);
@@ -362,7 +365,8 @@ fn gen_block(r: &mut Rng, vo: &Vocab, w: usize, stream: usize, size: Size, join_
         let want_join = join_var && !used_join && (i + 1 == n || r.coin());
         let p: TP = if want_join {
             used_join = true;
-            (subj, c(&vo.pred(stream, k)), v("j"))
+            // join2: the blocks share BOTH the subject ?k and the object ?j of this pattern
+            (if join2 { v("k") } else { subj }, c(&vo.pred(stream, k)), v("j"))
         } else {
             match r.weighted(&[35, 22, 10, 18, 6, 9]) {
                 0 => (subj, c(&vo.pred(stream, k)), v(if i == 0 { &y } else { &z })),
@@ -385,7 +389,7 @@ fn item_for_pattern(r: &mut Rng, vo: &Vocab, p: &TP, stream: usize, n_subj: usiz
     let s = match &p.0 {
         T::C(k) if k.starts_with(&vo.subj(stream, 0)[..vo.subj(stream, 0).len() - 1]) => k.clone(),
         // now and then a subject that occurs in every stream (the same triple may reach several streams)
-        _ if r.chance(1, 14) => format!("http://k/z{}", r.below(2)),
+        _ if r.chance(1, if vo.common { 2 } else { 14 }) => format!("http://k/z{}", r.below(2)),
         _ => vo.subj(stream, r.below(n_subj)),
     };
     let pr = match &p.1 {
@@ -417,7 +421,9 @@ fn item_for_pattern(r: &mut Rng, vo: &Vocab, p: &TP, stream: usize, n_subj: usiz
 
 fn gen_case(r: &mut Rng, size: Size, thorough: bool) -> Case {
     let shared_vocab = !r.chance(1, 6);
-    let vo = Vocab { shared: shared_vocab };
+    let join_var = r.chance(2, 5);
+    let join2 = join_var && r.chance(1, 3);
+    let vo = Vocab { shared: shared_vocab, common: join2 };
     let tiny = size == Size::Tiny;
     let with_static = if tiny { r.chance(1, 3) } else { r.chance(1, 2) };
     let n_wins = if tiny {
@@ -431,7 +437,6 @@ fn gen_case(r: &mut Rng, size: Size, thorough: bool) -> Case {
     let n_val = if tiny { 2 } else { r.range(2, 4) };
     let n_subj = if tiny { 2 } else { r.range(2, 6) };
     let n_stat = if tiny { 2 } else { r.range(2, 4) };
-    let join_var = r.chance(2, 5);
     let same_stream = !tiny && n_wins >= 2 && r.chance(1, 12);
 
     let mut wins = vec![];
@@ -439,7 +444,7 @@ fn gen_case(r: &mut Rng, size: Size, thorough: bool) -> Case {
         let stream = if same_stream { w.saturating_sub(1) } else { w };
         let width = if tiny { r.range(1, 3) } else { r.range(1, 8) };
         let slide = if r.chance(1, 10) { width + 1 } else { r.range(1, width) };
-        let block = gen_block(r, &vo, w, stream, size, join_var, n_pred, n_val, n_subj);
+        let block = gen_block(r, &vo, w, stream, size, join_var, join2, n_pred, n_val, n_subj);
         let any_stream = !tiny && w >= 1 && !same_stream && r.chance(1, 14);
         wins.push(Win { stream, any_stream, width, slide, non_empty: r.chance(1, 6), iri_style: if r.chance(1, 4) { 1 } else { 0 }, block });
     }
@@ -455,7 +460,7 @@ fn gen_case(r: &mut Rng, size: Size, thorough: bool) -> Case {
     let mut static_pats: Vec<TP> = vec![];
     let mut static_data: BTreeSet<LT> = BTreeSet::new();
     if with_static {
-        let sv = Vocab { shared: true };
+        let sv = Vocab { shared: true, common: join2 };
         let svo = if shared_vocab { &vo } else { &sv };
         let w0 = r.below(n_wins);
         let xw = match &wins[w0].block[0].0 {
@@ -565,7 +570,7 @@ fn gen_case(r: &mut Rng, size: Size, thorough: bool) -> Case {
             } else if r.chance(1, 4) && !static_pats.is_empty() {
                 // a stream item that matches a static pattern (stream-specific subject)
                 let p = r.pick(&static_pats).clone();
-                let sv = Vocab { shared: true };
+                let sv = Vocab { shared: true, common: join2 };
                 let mut it = item_for_pattern(r, if shared_vocab { &vo } else { &sv }, &p, s, n_subj, n_pred, n_val, n_stat);
                 it.0 = vo.subj(s, r.below(n_subj));
                 it
